@@ -242,7 +242,7 @@ pub fn compare(obs: &Obs, e: &Expected, q: &Queries, sound: bool, complete: bool
 // simpler oracle: without parents over these terms the implied equalities are exactly alpha-equivalence (decided
 // on de-Bruijn canonical forms) closed under the asserted unions.
 
-fn shadow_decode(mut idx: u64) -> Vec<Op> {
+pub fn shadow_decode(mut idx: u64) -> Vec<Op> {
     let a = alphabet("SHADOW");
     let n = a.len() as u64;
     let mut len = 1;
@@ -260,7 +260,7 @@ fn shadow_decode(mut idx: u64) -> Vec<Op> {
     v
 }
 
-fn de_bruijn(t: &T, env: &mut Vec<Name>) -> String {
+pub fn de_bruijn(t: &T, env: &mut Vec<Name>) -> String {
     let mut s = format!("({}", t.op);
     for a in &t.args {
         match a {
@@ -385,6 +385,8 @@ fn spaces(tier: Tier) -> Vec<Space> {
             Space { alpha: "SELFX", depth: 3 },
             Space { alpha: "CASC", depth: 2 },
             Space { alpha: "CASC", depth: 3 },
+            Space { alpha: "TERN", depth: 2 },
+            Space { alpha: "TERN", depth: 3 },
             Space { alpha: "QSYM", depth: 3 },
             Space { alpha: "QSYM", depth: 4 },
             Space { alpha: "CROSS", depth: 3 },
@@ -413,6 +415,8 @@ fn spaces(tier: Tier) -> Vec<Space> {
             Space { alpha: "SELFX", depth: 3 },
             Space { alpha: "CASC", depth: 2 },
             Space { alpha: "CASC", depth: 3 },
+            Space { alpha: "TERN", depth: 2 },
+            Space { alpha: "TERN", depth: 3 },
             Space { alpha: "QSYM", depth: 3 },
             Space { alpha: "QSYM", depth: 4 },
             Space { alpha: "CROSS", depth: 3 },
@@ -496,7 +500,7 @@ impl Prop for Cong {
         // the oracle does not depend on how the harness names become slots: the cheap segments are also run with
         // slot names that look exactly like the library's next fresh slot and with textual names in reverse order
         let name = &segs[seg].seg.name;
-        let cheap = name.ends_with("^1") || ["MICRO^2", "SAME^2", "SHARE^2", "A0^2", "MICRO^3", "SAME^3", "CASC^2", "CASC^3"].contains(&name.as_str()) || (tier == Tier::Thorough && ["CORE^2", "BIND^2", "T3^2", "SELF^2"].contains(&name.as_str()));
+        let cheap = name.ends_with("^1") || ["MICRO^2", "SAME^2", "SHARE^2", "A0^2", "MICRO^3", "SAME^3", "CASC^2", "CASC^3", "TERN^2"].contains(&name.as_str()) || (tier == Tier::Thorough && ["CORE^2", "BIND^2", "T3^2", "SELF^2"].contains(&name.as_str()));
         if cheap {
             // ... and with a non-trivial analysis attached (naming NumericOff(0) stands for "numeric names, min-size analysis")
             cong_exec_named(&ops, flips, self.sound, !self.sound, &[Naming::Numeric, Naming::FreshNext, Naming::TextRev, WITH_ANALYSIS])
